@@ -34,6 +34,10 @@ CHECKS = {
    text="A real device (Matter + InteractionModel + responder) over a fully parameterised, instrumented data model, and a client node with pre-established CASE sessions on two fabrics and a PASE session that sends raw Interaction Model requests. Full product, within the catalogs, of 2 node compositions x access-control configurations (privilege none / view / operate / manage / admin x target shape all / one endpoint / one cluster / endpoint+cluster / two targets) x 3 requesters x operations: reads of every path over endpoint {*,0,1,2,absent} x cluster {*,A,B,absent} x attribute {*, five access classes, global, absent}, fabric-filtered or not, lists of two paths in both orders; writes and invocations of every concrete and endpoint-wildcard path x {untimed, timed, window expired, timed flag without window, window without flag}; multi-element requests. Oracle: a reference derived from the node composition, the ACL and the access declarations - the data returned, the writes / invocations that reach the handlers, the fabric context handed to the handlers and the statuses of concrete paths.",
    note="Events are not part of this check; the access-check function over the full ACL space is C05's subject; where several reasons apply to a refused concrete path any of the corresponding statuses is accepted.",
    tech="bounded exhaustive configuration / input enumeration on the real two-node system against a reference model"),
+ "C07": dict(cat="model_checking",
+   text="The C08 world and its explicit-state BFS over operation histories (commissioning steps, RemoveFabric of the own and of another fabric, fail-safe expiry by the clock / ArmFailSafe(0) / RevokeCommissioning, restart, store failures), with operational sessions set up by the harness as soon as a fabric exists, explored from a factory-fresh node, a node with one fabric and a node with two fabrics. After every operation: every usable secure session in the device's table must be bound to a fabric that still exists and is the very fabric the session was established for (not a later fabric that received the same local index); removing a fabric leaves the sessions of the other fabrics alone.",
+   note="Session-resumption records and subscriptions of a removed fabric are not observed by this check (no real CASE / subscription traffic in this world); ACL entries and group keys live inside the fabric object and are covered by the configuration comparison of C08.",
+   tech="explicit-state BFS over operation histories of the real implementation with a state invariant"),
  "C08": dict(cat="model_checking",
    text="Explicit-state BFS over operation histories (states rebuilt by re-execution, deduplicated on the node's configuration in memory, the persisted blobs, the fail-safe state, the sessions and the harness bookkeeping) of a real device that runs the real root-endpoint data model over a recording key-value store, driven by raw Interaction Model commands over a PASE session and over CASE sessions of the fabrics that exist. Alphabet: ArmFailSafe 60 s / 0 s over PASE and CASE, CSRRequest for AddNOC / UpdateNOC, AddTrustedRootCertificate, AddNOC, UpdateNOC, ACL write, UpdateFabricLabel, KeySetWrite, RemoveFabric, CommissioningComplete from the right and the wrong context, OpenBasicCommissioningWindow, RevokeCommissioning, 61 s pass, restart, next / second-next store operation fails; from a factory-fresh node and from a node with one commissioned fabric. Oracle: a reference state machine for the answers to the credential commands (order, once each, arming context only), and all-or-nothing: whenever the fail-safe is not armed the fabrics / ACLs / labels / group keys in memory and the persisted fabric, basic-information and network blobs equal the last committed configuration, nothing of a pending commissioning is persisted while it is armed, the fail-safe state follows the reference, and a restart comes up with exactly the committed configuration.",
    note="Operational sessions are set up by the harness with pre-established keys (CASE itself is C01's subject); the Ethernet build has no network credentials to add (the persisted networks blob is compared); a change outside a fail-safe whose store fails may stay in memory until the next restart (observed, not judged).",
